@@ -61,6 +61,13 @@ def diffLine' (periodic : Bool) (restrict : Bool) (order : Nat) (h : Rat) (cells
   if periodic then diffRing order h (if restrict then cells else cells.map fun c => (c.1, true))
   else diffLine order h (if restrict then cells else cells.map fun c => (c.1, true))
 
+/-- is the axis named `d` a periodic direction under `bc`, as `Field.diff` decides it (repo fix of
+D123): `bc` is not one of the two words and one of its characters is the axis name.  (Before the
+fix the test was the bare substring test `d in bc`: an open axis called `n`, `e`, `u`, … counted
+as periodic on a `"neumann"` mesh, a multi-character name that is a substring of `bc` too.) -/
+def periodicBc (bc d : String) : Bool :=
+  !(bc == "neumann" || bc == "dirichlet") && bc.toList.any fun ch => String.singleton ch == d
+
 /-- `Field.diff(direction, order, restrict2valid)`; `ax` = index of the direction,
 `periodic` = direction named in `mesh.bc`.  Errors: order ∉ {1,2}. -/
 def diff (f : Fld) (ax : Nat) (order : Nat) (restrict : Bool) : M Fld :=
@@ -70,7 +77,7 @@ def diff (f : Fld) (ax : Nat) (order : Nat) (restrict : Bool) : M Fld :=
     .ok { f with
       data := ⟨f.data.shape, fun i =>
         tab f.nvdim fun c =>
-          (diffLine' (f.mesh.bc.toList.any fun ch => String.singleton ch == f.mesh.region.dims.getD ax "")
+          (diffLine' (periodicBc f.mesh.bc (f.mesh.region.dims.getD ax ""))
               restrict order (f.mesh.cellAt ax)
               (tab (f.mesh.nAt ax) fun j => ((f.data.line ax i j).getD c 0, f.valid.line ax i j))).getD
             (i.getD ax 0) 0⟩ }
@@ -113,8 +120,7 @@ def diffSpec (order : Nat) (h : Rat) (L : Nat) (x : Nat → Rat) (v : Nat → Bo
   else 0
 
 /-- is axis `ax` a periodic direction (its name occurs in `mesh.bc`), as `Field.diff` decides it -/
-def periodicAx (f : Fld) (ax : Nat) : Bool :=
-  f.mesh.bc.toList.any fun ch => String.singleton ch == f.mesh.region.dims.getD ax ""
+def periodicAx (f : Fld) (ax : Nat) : Bool := periodicBc f.mesh.bc (f.mesh.region.dims.getD ax "")
 
 /-- values and validity of a line of cells as total functions (outside the line: `0`, invalid) -/
 def valOf (cells : List (Rat × Bool)) (j : Nat) : Rat := (cells.getD j (0, false)).1
